@@ -144,6 +144,8 @@ func (n *Node) MarshalJSON() ([]byte, error) {
 		m["opts"] = optsJSON(n.Opts)
 	case "name":
 		m["n"] = n.Name
+	case "bad":
+		m["kind"] = n.Name
 	case "var":
 		m["lhs"] = lvsJSON(n.Lhs)
 		m["rest"] = n.Rest
